@@ -274,6 +274,16 @@ def flag_provenance(ctx, rule, flag, family=('assert_limits', 'engine_on'), floo
                     key += ' #%d' % (k2 + 1)
                 other = mentioned - {flag}
                 ok = not other and (flag in mentioned or not (own_param or own_field))
+                # (d) where the caller has the flag as a parameter, what it passes on IS that parameter (or its documented decoding
+                # `unwrap_or(flag, true)`): `flag.and(..)`, `flag && ..`, `!flag` mention the flag and still change the command
+                if ok and own_param:
+                    try:
+                        ownt = an.arg(flag)
+                    except KeyError:
+                        ownt = None
+                    if ownt is not None and flag in mentioned:
+                        decoded = v[0] == 'uf' and v[1].endswith('unwrap_or') and len(v) == 4 and v[2] == ownt
+                        ok = (v == ownt) or decoded
                 ctx.check(ok, rule, key, '`%s` is handed on unchanged (%s)' % (flag, show(v, an.names)[:60]),
                           'the value passed for `%s` is %s%s' % (flag, show(v, an.names)[:120],
                                                                (' — it derives from `%s`' % '`, `'.join(sorted(other))) if other else ' — the caller\'s own flag is not used'),
